@@ -41,6 +41,14 @@ class Connection:
     previous = gfa._search_duplicate(self)
     if previous:
       if previous.virtual:
+        if previous.record_type != "\n" and \
+            previous.record_type != self.record_type:
+          # a placeholder created for a line of another type (e.g. a segment
+          # named by an edge) cannot be replaced by this line
+          raise gfapy.NotUniqueError(
+            "Line: {}\n".format(str(self))+
+            "Line or ID not unique\n"+
+            "Matching previous line: {}".format(str(previous)))
         return self._substitute_virtual_line(previous)
       else:
         return self._process_not_unique(previous)
